@@ -22,7 +22,8 @@ INV = ["ConventionsCompose", "ExactEqualsEigenvalueAverage", "Normalised", "Supp
 
 
 def to_steps(prog):
-    return [{"name": "RY", "k": s["k"], "qs": s["qs"], "kind": "ctrl", "nc": 1} if s["name"] == "CRY" else {"name": s["name"], "k": s["k"], "qs": s["qs"], "kind": "builtin", "nc": 0} for s in prog]
+    ctrl = {"CRY": ("RY", 1), "CCX": ("X", 2)}
+    return [{"name": ctrl[s["name"]][0], "k": s["k"], "qs": s["qs"], "kind": "ctrl", "nc": ctrl[s["name"]][1]} if s["name"] in ctrl else {"name": s["name"], "k": s["k"], "qs": s["qs"], "kind": "builtin", "nc": 0} for s in prog]
 
 
 def check_case(ctx, c):
@@ -96,11 +97,43 @@ def check_case(ctx, c):
                 out.append(("measured-expectation", "%s: <%s> from measurements %s, statistic of the returned tuples %s" % (desc, term, ev_m, stat)))
             if len(support) == 1 and abs(ev_m - coef * ring(z["v"]).real) > 1e-9:
                 out.append(("measured-expectation:basis", "%s: basis state, <%s> from measurements %s, exact %s" % (desc, term, ev_m, coef * ring(z["v"]).real)))
+    # a batch mixing this circuit with the same operations on a WIDER register (idle qubits at the end) and an empty one:
+    # every result speaks about its own circuit's register
+    from orquestra.quantum.circuits import Circuit
+
+    wider = Circuit(list(circ.operations), n_qubits=n + 1)
+    batch = [circ, wider, Circuit(n_qubits=n), circ, Circuit(n_qubits=n + 1)]
+    widths = [n, n + 1, n, n, n + 1]
+    try:
+        results = sim.run_batch_and_measure(batch, [3, 2**n + 2, 2, 5, 1])
+        if len(results) != len(batch):
+            out.append(("batch:count", "%s in a batch of %d circuits: %d results" % (desc, len(batch), len(results))))
+        for j, (ms_, wj) in enumerate(zip(results, widths)):
+            bs = [tuple(int(x) for x in b) for b in ms_.bitstrings]
+            if any(len(b) != wj for b in bs):
+                out.append(("batch:width", "%s: batch [this, same operations on %d qubits, empty(%d), this, empty(%d)]: result %d has tuples %s for a register of %d qubits" % (desc, n + 1, n, n + 1, j, bs[:2], wj)))
+            elif j in (0, 3) and any(b not in support for b in bs):
+                out.append(("batch:support", "%s: batch result %d holds %s, support %s" % (desc, j, [b for b in bs if b not in support][:1], sorted(support))))
+            elif j == 1 and any(b[:n] not in support or b[n] != 0 for b in bs):
+                out.append(("batch:support", "%s on %d qubits (one idle qubit appended): sampled %s" % (desc, n + 1, bs[:2])))
+            elif j in (2, 4) and any(any(b) for b in bs):
+                out.append(("batch:support", "%s: the empty circuit in the batch sampled %s" % (desc, bs[:2])))
+    except Exception as ex:
+        out.append(("batch:raises", "%s in a mixed-width batch: %s: %s" % (desc, type(ex).__name__, str(ex)[:200])))
+    # the same expectation seen from the other end: operator AND state with the qubit order reversed (a wavefunction that
+    # came from a little-endian backend) - evaluated BEFORE the plain call, for the same operator object and width
+    from orquestra.quantum.operators import get_expectation_value
+    from orquestra.quantum.wavefunction import Wavefunction, flip_wavefunction
+
+    flipped = flip_wavefunction(Wavefunction(np.array(psi, dtype=complex)))
     # exact expectation of every Z-type operator on the register
     for z in c["z"]:
         S = z["S"]
         coef = -2.0
         term = PauliTerm({q: "Z" for q in S}, coef)
+        rev = get_expectation_value(term, flipped, reverse_operator=True)
+        if abs(rev - coef * ring(z["v"]).real) > 1e-9:
+            out.append(("exact-expectation:reversed", "%s: <%s> with operator and state both reversed = %s, specification %s" % (desc, term, rev, coef * ring(z["v"]).real)))
         got = sim.get_exact_expectation_values(circ, term)
         wantv = coef * ring(z["v"]).real
         if abs(got - wantv) > 1e-9:
@@ -169,7 +202,7 @@ def check_bits(ctx):
 
 def run(ctx):
     quick = ctx.tier == "quick"
-    ctx.bounds = {"basis": "all X-subset circuits on 1..4 qubits", "super": "all circuits of <= %d gates over {X,H,RY(pi/2),S,CNOT,c-RY(pi/2)} on 1..3 qubits" % (2 if quick else 3), "Z operators": "every subset of the register"}
+    ctx.bounds = {"basis": "all X-subset circuits on 1..4 qubits", "super": "all circuits of <= %d gates over {X,H,RY(pi/2),S,CNOT,c-RY(pi/2),cc-X on every ordered triple} on 1..3 qubits" % (2 if quick else 3), "Z operators": "every subset of the register"}
     cases = []
     for mode, mq, ml in (('"basis"', 4, 9), ('"super"', 3, 2 if quick else 3)):
         res = ctx.tlc("Views", constants=dict(MaxQ=mq, MaxLen=ml, Mode=mode, Emitting=True), invariants=INV, action_constraints=["Emit"], view="ViewNoGm", coverage=False, timeout=3000)
